@@ -103,6 +103,8 @@ func routeOpsString(h []routeOp) string {
 			s = append(s, fmt.Sprintf("save(%q,%s,%v)", o.Pattern.S(), o.URL.S(), o.KA))
 		case "del":
 			s = append(s, fmt.Sprintf("del(%q)", o.Pattern.S()))
+		case "savebad":
+			s = append(s, fmt.Sprintf("save(%q,<a URL that does not parse>)", o.Pattern.S()))
 		default:
 			s = append(s, o.Op)
 		}
@@ -122,6 +124,8 @@ func applyRouteOp(o routeOp) {
 		if err := route.Save(&route.Route{Pattern: o.Pattern.S(), URL: o.URL.S(), KeepAlive: o.KA}); err != nil {
 			panic(err)
 		}
+	case "savebad": // a target URL that does not parse: the edit is refused, and a refused edit changes nothing
+		route.Save(&route.Route{Pattern: o.Pattern.S(), URL: "rtsp://192.168.1.10:55a/live", KeepAlive: o.KA})
 	case "del":
 		route.Del(o.Pattern.S())
 	case "flush":
@@ -729,3 +733,95 @@ type nopRoutes struct{}
 
 func (nopRoutes) LoadAll() ([]*route.Route, error)                { return nil, nil }
 func (nopRoutes) Flush(full, saves, removes []*route.Route) error { return nil }
+
+// TestFlushRace: an edit arrives while a flush is writing the file (the flush is held at the hook json.write).  Whatever
+// the order the table settles on, the edit is not forgotten: after the next flush and a restart it is in the table.
+func TestFlushRace(t *testing.T) {
+	dir := t.TempDir()
+	type outcome struct {
+		Table  string `json:"table"`
+		Rounds int    `json:"rounds"`
+		Lost   int    `json:"lost"`
+		Sample string `json:"sample"`
+	}
+	var outs []outcome
+	var armed int32
+	parked := make(chan struct{}, 1)
+	release := make(chan struct{})
+	vhook.SetHandler(func(p string, x interface{}) {
+		if p == "json.write" && atomic.CompareAndSwapInt32(&armed, 1, 0) {
+			parked <- struct{}{}
+			select {
+			case <-release:
+			case <-time.After(5 * time.Second):
+			}
+		}
+	})
+	defer vhook.SetHandler(nil)
+	rounds := 20
+	// ---- routes
+	configureRouteFile(t, dir+"/routes.json")
+	route.Reset(route.JSON)
+	ro := outcome{Table: "routes", Rounds: rounds}
+	for k := 0; k < rounds; k++ {
+		a, b := fmt.Sprintf("/r%da", k), fmt.Sprintf("/r%db", k)
+		route.Save(&route.Route{Pattern: a, URL: "rtsp://h/a"})
+		release = make(chan struct{})
+		atomic.StoreInt32(&armed, 1)
+		var wg sync.WaitGroup
+		wg.Add(1)
+		go func() { defer wg.Done(); route.Flush() }()
+		select {
+		case <-parked:
+		case <-time.After(2 * time.Second):
+			t.Fatal("flush did not reach json.write")
+		}
+		wg.Add(1)
+		go func() { defer wg.Done(); route.Save(&route.Route{Pattern: b, URL: "rtsp://h/b"}) }()
+		time.Sleep(5 * time.Millisecond)
+		close(release)
+		wg.Wait()
+		route.Flush()
+		route.Reset(route.JSON) // restart: what is in the file now
+		if route.Get(a) == nil || route.Get(b) == nil {
+			ro.Lost++
+			if ro.Sample == "" {
+				ro.Sample = fmt.Sprintf("after save(%s); flush || save(%s); flush; restart: %s present=%v, %s present=%v", a, b, a, route.Get(a) != nil, b, route.Get(b) != nil)
+			}
+		}
+	}
+	outs = append(outs, ro)
+	// ---- users
+	configureUserFile(t, dir+"/users.json")
+	auth.Reset(auth.JSON)
+	uo := outcome{Table: "users", Rounds: rounds}
+	for k := 0; k < rounds; k++ {
+		a, b := fmt.Sprintf("ua%d", k), fmt.Sprintf("ub%d", k)
+		auth.Save(&auth.User{Name: a, Password: "p"}, true)
+		release = make(chan struct{})
+		atomic.StoreInt32(&armed, 1)
+		var wg sync.WaitGroup
+		wg.Add(1)
+		go func() { defer wg.Done(); auth.Flush() }()
+		select {
+		case <-parked:
+		case <-time.After(2 * time.Second):
+			t.Fatal("flush did not reach json.write")
+		}
+		wg.Add(1)
+		go func() { defer wg.Done(); auth.Save(&auth.User{Name: b, Password: "p"}, true) }()
+		time.Sleep(5 * time.Millisecond)
+		close(release)
+		wg.Wait()
+		auth.Flush()
+		auth.Reset(auth.JSON)
+		if auth.Get(a) == nil || auth.Get(b) == nil {
+			uo.Lost++
+			if uo.Sample == "" {
+				uo.Sample = fmt.Sprintf("after save(%s); flush || save(%s); flush; restart: %s present=%v, %s present=%v", a, b, a, auth.Get(a) != nil, b, auth.Get(b) != nil)
+			}
+		}
+	}
+	outs = append(outs, uo)
+	vio.WriteJSON(t, "VERIF_OUT", map[string]interface{}{"outcomes": outs})
+}
